@@ -216,19 +216,19 @@ theorem fromVec_spec (v : Array (Item × P)) :
   obtain ⟨s', h1, h2, h3, h4, h5⟩ := fromVec_safe v
   exact ⟨s', h1, ⟨h2, h3⟩, h4, h5⟩
 
-/-- `FromIterator`: the LAST pair of each key -/
-theorem fromIter_spec (xs : Array (Item × P)) :
-    ∃ s', fromIter xs = .ok s' ∧ Inv s' ∧ (∀ k, s'.abs k = xs.toList.reverse.find? (fun e => e.1.key == k)) ∧
+/-- `FromIterator` (every `size_hint` lower bound below the capacity limit): the LAST pair of each key -/
+theorem fromIter_spec (lo : Nat) (xs : Array (Item × P)) (hlo : lo < capLimit) :
+    ∃ s', fromIter lo xs = .ok s' ∧ Inv s' ∧ (∀ k, s'.abs k = xs.toList.reverse.find? (fun e => e.1.key == k)) ∧
       s'.size = (xs.toList.map (·.1.key)).eraseDups.length := by
-  obtain ⟨s', h1, h2, h3, h4, h5⟩ := fromIter_safe xs
+  obtain ⟨s', h1, h2, h3, h4, h5⟩ := fromIter_safe lo xs hlo
   exact ⟨s', h1, ⟨h2, h3⟩, h4, h5⟩
 
-/-- the deserializer is total: EVERY sequence yields a queue satisfying the invariant, with the contents of `extend`
-from the empty queue (item of the first, priority of the last pair of each key) -/
-theorem deserialize_spec (xs : Array (Item × P)) :
-    ∃ s', deserialize xs = .ok s' ∧ Inv s' ∧ s'.abs = xs.foldl Store.absStep (fun _ => none) ∧
+/-- the deserializer is total: EVERY sequence, under EVERY announced length `hint`, yields a queue satisfying the invariant,
+with the contents of `extend` from the empty queue (item of the first, priority of the last pair of each key) -/
+theorem deserialize_spec (hint : Option Nat) (xs : Array (Item × P)) :
+    ∃ s', deserialize hint xs = .ok s' ∧ Inv s' ∧ s'.abs = xs.foldl Store.absStep (fun _ => none) ∧
       s'.size = (xs.toList.map (·.1.key)).eraseDups.length := by
-  obtain ⟨s', h1, h2, h3, h4, h5⟩ := deserialize_safe xs
+  obtain ⟨s', h1, h2, h3, h4, h5⟩ := deserialize_safe hint xs
   exact ⟨s', h1, ⟨h2, h3⟩, h4, h5⟩
 
 /-- `From<PriorityQueue>`: any well-formed store becomes a min-max heap with the same contents -/
@@ -242,11 +242,11 @@ theorem pushAll_spec {s : Store P} (h : Inv s) (es : List (Item × P)) :
   obtain ⟨s', h1, h2, h3, h4⟩ := pushAll_core es h.1
   exact ⟨s', h1, ⟨h2, h4 h.2⟩, h3⟩
 
-/-- `Extend::extend`, for EVERY size hint `lo`: both strategies (rebuild / push one by one) yield the same contents,
-payloads included -/
-theorem extend_spec {s : Store P} (h : Inv s) (lo : Nat) (xs : Array (Item × P)) :
+/-- `Extend::extend`, for EVERY size hint `lo` below the capacity limit: both strategies (rebuild / push one by one) yield
+the same contents, payloads included -/
+theorem extend_spec {s : Store P} (h : Inv s) (lo : Nat) (xs : Array (Item × P)) (hlo : lo < capLimit) :
     ∃ s', extend s lo xs = .ok s' ∧ Inv s' ∧ s'.abs = xs.foldl Store.absStep s.abs := by
-  obtain ⟨s', h1, h2, h3, h4⟩ := extend_core h.1 lo xs
+  obtain ⟨s', h1, h2, h3, h4⟩ := extend_core h.1 lo xs hlo
   exact ⟨s', h1, ⟨h2, h4 h.2⟩, h3⟩
 
 /-! ## The double-ended sorted iterator and the sorted vectors -/
@@ -384,8 +384,8 @@ example : (extend exQ 0 #[(⟨2, 7⟩, 1), (⟨9, 1⟩, 2), (⟨9, 2⟩, 3)]).to
 example : betterToRebuild 8 17 = true := by decide +kernel
 example : (extend exQ 17 #[(⟨2, 7⟩, 1), (⟨9, 1⟩, 2), (⟨9, 2⟩, 3)]).toOption.map (fun s => (s.size, s.abs 2, s.abs 9)) =
     some (9, some (⟨2, 0⟩, 1), some (⟨9, 1⟩, 3)) := by decide +kernel
-example : (deserialize exV).toOption.map (fun s => (s.size, s.abs 2)) = some (8, some (⟨2, 0⟩, 99)) := by decide +kernel
-example : (fromIter exV).toOption.map (fun s => (s.size, s.abs 2)) = some (8, some (⟨2, 9⟩, 99)) := by decide +kernel
+example : (deserialize (some 1000000) exV).toOption.map (fun s => (s.size, s.abs 2)) = some (8, some (⟨2, 0⟩, 99)) := by decide +kernel
+example : (fromIter 0 exV).toOption.map (fun s => (s.size, s.abs 2)) = some (8, some (⟨2, 9⟩, 99)) := by decide +kernel
 example : (append exQ exQ).toOption.map (fun r => (r.1.size, r.2.size)) = some (8, 0) := by decide +kernel
 -- the double-ended sorted iterator: `next`, `next_back`, `next`, … ; `none` once everything was handed out
 example : (sortedCalls [false, true, false, true, true, false, false, true, false, true] exQ).toOption.map
